@@ -525,12 +525,14 @@ class C17(Profile):
         seeds = list(range(16)) if th else [0, 1, 2, 3, 5, 7, 11, 13]
         recs = corpus_recs() + grid_recs(["symmetry", "minmax", "sumchains", "duplication", "cleanup", "unused", "projection", "domains", "inline", "math"])
         corp = corpus_recs()
-        sel = (recs if th else pick(corp, 150, rng) + pick(recs, 130, rng))
+        order = grid_recs(["order"])  # programs with several candidates / collections to order: always, both trait sets
+        order_ids = {r["id"] for r in order}
+        sel = order + (recs if th else pick(corp, 140, rng) + pick(recs, 120, rng))
         out = []
         for rec in sel:
             inn, outp = decl_of(rec)
             for tr, lab in ((list(TRAITS), "all"), (list(DEFAULT_TRAITS), "default")):
-                if lab == "default" and not th and rng.random() < 0.5:
+                if lab == "default" and not th and rec["id"] not in order_ids and rng.random() < 0.5:
                     continue
                 for h in seeds:
                     c = opt_case("C17", f"{rec['id']}|{lab}|h{h}", rec["program"], tr, inn, outp, None, [], 0, seed, tag=rec.get("tag"), allow_partial_in=True)
